@@ -22,6 +22,7 @@ tvars == <<l, nbad>>
 
 Numeric(o) ==
     IF ~o.returned THEN "kernel_raised"
+    ELSE IF ~o.shape_ok THEN "result_has_wrong_shape"
     ELSE IF ~o.beams_exact THEN "beam_is_not_the_position_difference"
     ELSE IF ~o.unit_ok THEN "unit_or_dtype_of_result"
     ELSE IF o.e_len > LenTol THEN "length_not_euclidean"
@@ -54,6 +55,42 @@ JudgeNear(e) ==
 
 JudgeRand(e) == Numeric(e.o)
 
+(* a batch element of a layout: TLC recomputes the configuration the pixel must see from  *)
+(* the shared and the per-pixel record (Element) and its exact integers; the observation   *)
+(* carries, besides the kernel / accessor errors, the name of the first call that raised,  *)
+(* the errors of the coordinate-graph route (intermediate results included), of two_theta  *)
+(* with the two beams given in different length units, and whether the operands survived.  *)
+NumericLay(o) ==
+    IF o.raised # "" THEN "raised_in_" \o o.raised
+    ELSE IF Numeric(o) # "ok" THEN Numeric(o)
+    ELSE IF ~o.graph_beams_exact THEN "graph_beam_is_not_the_position_difference"
+    ELSE IF o.e_graphlen > LenTol THEN "graph_length_not_euclidean"
+    ELSE IF o.e_graph > AngTol THEN "graph_two_theta_inaccurate"
+    ELSE IF o.e_mix > AngTol THEN "two_theta_depends_on_the_length_units_of_its_beams"
+    ELSE IF ~o.inputs_kept THEN "operand_modified_in_place"
+    \* asym: class of the exception two_theta raised when its incident beam had a dim (per-pixel) that its
+    \* scattered beam lacked ("" if it returned); judged last so that everything else is still decided
+    ELSE IF o.asym # "" THEN "two_theta_raised_" \o o.asym
+    ELSE "ok"
+
+JudgeLay(e) ==
+    LET c == Element(e.layout, e.shared, e.pix) IN
+    IF e.layout \notin Layouts \/ e.mem \notin Memories THEN "unknown_layout"
+    ELSE IF ~Proper(c) THEN "improper_configuration"
+    ELSE IF c # e.c THEN "fed_configuration_is_not_the_spec_broadcast"
+    ELSE IF Exact(c) # e.x THEN "harness_reference_differs_from_spec"
+    ELSE NumericLay(e.o)
+
+(* random float instruments in the mixed layouts (no lattice configuration to recompute) *)
+JudgeRandLay(e) == IF e.layout \notin Layouts \/ e.mem \notin Memories THEN "unknown_layout" ELSE NumericLay(e.o)
+
+(* second use: a sample of the cases above evaluated again at the end of the run, in      *)
+(* another order and in other company; "held" = the result objects were kept while a      *)
+(* later call of the same shape ran and only then looked at.                               *)
+JudgeAgain(e) == Numeric(e.o)
+
+(* e32 is measured in the unit of the narrowest operand: 2^-24 if a float32 takes part    *)
+(* (then a float32 or a float64 result is accepted), 2^-53 for float64 + float64            *)
 JudgeSum32(e) == IF e.e32 > Sum32Tol THEN "float32_sum_inaccurate"
                  ELSE IF ~e.dtype_ok THEN "float32_sum_dtype" ELSE "ok"
 
@@ -61,6 +98,9 @@ Judge(e) == CASE e.ev = "pair"  -> JudgePair(e)
               [] e.ev = "near"  -> JudgeNear(e)
               [] e.ev = "rand"  -> JudgeRand(e)
               [] e.ev = "sum32" -> JudgeSum32(e)
+              [] e.ev = "lay"   -> JudgeLay(e)
+              [] e.ev = "rlay"  -> JudgeRandLay(e)
+              [] e.ev = "again" -> JudgeAgain(e)
               [] OTHER -> "unknown_event"
 
 TInit == l = 1 /\ nbad = 0
